@@ -3,4 +3,4 @@
 mkdir -p /verif/.work/final
 cd /verif
 ids=$(python3 -c "import json;print(' '.join(c['property_id'] for c in json.load(open('MANIFEST.json'))['checks']))")
-echo $ids | tr ' ' '\n' | xargs -P 3 -I{} sh -c './check {} --tier quick > .work/final/{}.log 2>&1; echo "{} exit=$?"'
+echo $ids | tr ' ' '\n' | xargs -P ${VERIF_PAR:-3} -I{} sh -c './check {} --tier quick > .work/final/{}.log 2>&1; echo "{} exit=$?"'
